@@ -285,6 +285,17 @@ class Interp:
         if "obj" in n:
             obj = self.ev(fn.nodes[n["obj"]], fr)
         args = [self.ev(fn.nodes[i], fr) for i in n.get("args", [])]
+        if target is None and c["qname"] in ("std::max", "std::min") and len(args) == 2 and all(isinstance(a, Eps) for a in args):
+            # two infinitesimals (precisions): the larger / smaller one
+            return Eps(max(a.n for a in args) if c["qname"] == "std::max" else min(a.n for a in args))
+        if target is None and c["qname"] in ("std::max", "std::min") and len(args) == 2 and not all(is_car(a) for a in args):
+            self.bad(n, fn, "std::%s of non-carrier values %r" % (c["qname"][5:], args))
+        if target is None and c["qname"] in ("std::max", "std::min") and len(args) == 2:
+            # std::max(a, b) returns a unless a < b; std::min(a, b) returns a unless b < a  (comparison and copy only)
+            a_, b_ = args
+            if c["qname"] == "std::max":
+                return b_ if a_ < b_ else a_
+            return b_ if b_ < a_ else a_
         if target is None:
             self.bad(n, fn, "call outside the comparison-only subset: %s" % c["key"])
         if c.get("virtual") and isinstance(obj, Obj):
